@@ -374,7 +374,7 @@ bool Directory::copy(const String& from, const String& to)
 		if( m != n)
 			return false;
 	}while (n == sizeof(buffer));
-	return true;
+	return fflush(dst.stdio()) == 0; // the last block may still be in the stdio buffer
 }
 
 bool Directory::move(const String& from, const String& to)
